@@ -1154,7 +1154,8 @@ class ProgramData:
         Load the currently processing source code
         """
 
-        cls._current_source = src.splitlines(keepends=False)
+        # lines are counted the way the parser counts them: only \n ends a line (splitlines() also splits at form feeds, lone CRs, ...)
+        cls._current_source = [x.rstrip("\r") for x in src.split("\n")]
 
     @classmethod
     def _ensure_refmapped(cls, obj: object):
